@@ -563,6 +563,55 @@ func checkHitGuards(c *core.Ctx, r *core.Rule, prog *core.Prog, fieldOf func(ssa
 		reviewed[e.Key] = m
 	}
 	gen := prog.ByPath[pkgGen]
+	// the predicates named in reviewed guards were reviewed for what they look at: the set of struct fields a
+	// predicate reads is part of the review (entry "predicate-reads:<name>"); a predicate that starts looking at a
+	// new field (or through a new indirection such as AliasTo) accepts something else than what was reviewed
+	for key, want := range reviewed {
+		if !strings.HasPrefix(key, "predicate-reads:") {
+			continue
+		}
+		name := strings.TrimPrefix(key, "predicate-reads:")
+		fn := prog.Func(pkgGen, name)
+		if fn == nil {
+			r.Undecided(key, "-", "gen."+name+" not found")
+			continue
+		}
+		got := map[string]token.Pos{}
+		for _, g := range core.AllFuncs(fn) {
+			for _, bl := range g.Blocks {
+				for _, in := range bl.Instrs {
+					switch x := in.(type) {
+					case *ssa.FieldAddr:
+						got[fieldName(x.X.Type(), x.Field)] = x.Pos()
+					case *ssa.Field:
+						got[fieldName(x.X.Type(), x.Field)] = x.Pos()
+					}
+				}
+			}
+		}
+		var extra []string
+		pos := fn.Pos()
+		for f, p := range got {
+			if !want[f] {
+				extra = append(extra, f)
+				pos = p
+			}
+		}
+		sort.Strings(extra)
+		if os.Getenv("OGENVERIF_TRACE") != "" {
+			var all []string
+			for f := range got {
+				all = append(all, f)
+			}
+			sort.Strings(all)
+			fmt.Fprintf(os.Stderr, "PREDREADS\t%s\t%s\n", name, strings.Join(all, ","))
+		}
+		if len(extra) == 0 {
+			r.Pass(fmt.Sprintf("%s reads only the reviewed fields (%d)", name, len(got)))
+		} else {
+			r.Fail(key, c.Pos(pos), fmt.Sprintf("%s, the predicate a reviewed tstorage exception relies on, now also reads %v: what it accepts as \"the same type\" is no longer what was reviewed (two differently shaped types may be merged under one name)", name, extra))
+		}
+	}
 	for _, fn := range core.PkgFuncs(prog.SSA, gen) {
 		inserts := map[string]bool{}
 		for _, bl := range fn.Blocks {
